@@ -37,12 +37,34 @@ def run(chk, prog):
     ev = m.flat("wakePotential")
     N, B = S.N, S.B
     # ---- R1 ------------------------------------------------------------------------------------
-    wr = [e for e in ev if e.kind == "write" and e.buf == "_bp_padded" and e.what == "std::copy_n"]
-    A.require(len(wr) == 1, "padBunchProfiles: expected one copy of the profiles")
-    w = wr[0]
-    A.require(len(w.loops) == 1, "padBunchProfiles: profile copy not in one bunch loop")
+    wr_all = [e for e in ev if e.kind == "write" and e.buf == "_bp_padded" and e.what == "std::copy_n"]
+    A.require(len(wr_all) >= 1, "padBunchProfiles: no copy of the profiles into the padded buffer")
+    # the read-back (needed below to judge every placement)
+    rd = [e for e in ev if e.kind == "read" and e.buf == "_wakepotential_padded"]
+    st = [e for e in ev if e.kind == "write" and e.buf == "_wakepotential" and isinstance(e.lo, tuple)]
+    A.require(len(rd) == 1 and len(st) == 1, "wakePotential: read-back not found")
+    r, s_ = rd[0], st[0]
+    lb, lx = s_.loops[0], s_.loops[1]
+    looped = [w_ for w_ in wr_all if len(w_.loops) == 1]
+    A.require(len(looped) == 1, "padBunchProfiles: expected one bunch loop placing the profiles (found %d)" % len(looped))
+    # further copies outside the bunch loop (a special case for some filling, say) place one fixed row: each must put that row
+    # where the read-back looks for it
+    for w_ in wr_all:
+        if w_ is looped[0]:
+            continue
+        A.require(not w_.loops, "padBunchProfiles: profile copy in a nest of loops")
+        srcs = [e for e in ev if e.kind == "read-src" and e.nid == w_.nid and e.seq is not None and w_.seq is not None and abs(w_.seq - e.seq - 0.25) < 1e-9]
+        row = E.profile_row(srcs[0].value) if srcs else None
+        if row is None or not sp.sympify(row).is_Integer:
+            raise AnalysisBroken("padBunchProfiles: a profile copy outside the bunch loop whose source row cannot be read (%s)" % (srcs[0].value if srcs else None))
+        placed = sp.expand(w_.lo)
+        wanted = sp.expand(r.lo[0] - lx.sym).subs(lb.sym, row)
+        chk.check(sp.expand(placed - wanted) == 0 and sp.expand(w_.length - N) == 0, "R1", A.loc(pad, {"line": w_.line}),
+                  "the separately placed profile of bunch %s lies where the read-back looks for it (placed at %s, read at %s; guards: %s)"
+                  % (row, placed, wanted, I.guard_text(w_.guards)), "padBunchProfiles:extra-copy:layout:%s" % sp.expand(placed - wanted))
+    w = looped[0]
     b = w.loops[0].sym
-    src = [e for e in ev if e.kind == "read-src" and e.nid == w.nid]
+    src = [e for e in ev if e.kind == "read-src" and e.nid == w.nid and e.seq is not None and w.seq is not None and abs(w.seq - e.seq - 0.25) < 1e-9]
     sv = src[0].value if src else None
     org = [x for x in (sv.atoms(sp.Function) if sv is not None else []) if str(x.func) == "origin"]
     so = sp.expand(S.norm(sv - org[0])) if len(org) == 1 else None
@@ -57,11 +79,6 @@ def run(chk, prog):
         cand = [x for x in A.walk(pad["body"]) if x["k"] == "DeclStmt" for x in x["decls"] if x.get("name") == oobj and "init" in x]
         ok = len(cand) == 1 and "getProjection(0)" in A.show(cand[0]["init"]).replace(" ", "") and "_phasespace" in A.show(cand[0]["init"])
     chk.check(ok, "R1", pad.where, "the profiles placed are the current X projection of the field's phase space", "padBunchProfiles:projection")
-    rd = [e for e in ev if e.kind == "read" and e.buf == "_wakepotential_padded"]
-    st = [e for e in ev if e.kind == "write" and e.buf == "_wakepotential" and isinstance(e.lo, tuple)]
-    A.require(len(rd) == 1 and len(st) == 1, "wakePotential: read-back not found")
-    r, s_ = rd[0], st[0]
-    lb, lx = s_.loops[0], s_.loops[1]
     chk.check(s_.lo == (lb.sym, lx.sym) and lb.lo == 0 and sp.expand(S.norm(lb.hi) - B) == 0 and lx.lo == 0 and sp.expand(S.norm(lx.hi) - N) == 0,
               "R1", A.loc(wp, {"line": s_.line}), "result cell [b][x] for all b in [0,B), x in [0,N)", "wakePotential:result-range")
     diff = sp.expand(r.lo[0] - lx.sym - w.lo.subs(b, lb.sym))
